@@ -8,6 +8,15 @@ CFG = {
             "invalid entries and every comma spacing, Content-Length bodies 0..64 KiB) rendered to bytes together "
             "with the request the AST denotes (computed without the parser); each delivered whole, one byte per "
             "read, every n bytes, at random cuts, and at every single split point for a share of the short ones; "
+            "SWEEPS (one dimension at a time well above small, everything else drawn as usual, every request through BOTH parsers): "
+            "Content-Length bodies of 65536, 65537, 131073, 262144, 262145, 300017, 524289, 1048576, 1048577 bytes (thorough: 29 sizes "
+            "from 65535 to 4 MiB+17; beyond the 64 KiB the property names, as a size sweep) as a pseudo-random pattern written "
+            "`Z<len>.<seed>` in the case line, read whole, in 1460..16384-byte and 64 KiB..1 MiB pieces, cut exactly at / one byte "
+            "around the end of the head, head plus part of the body then the rest, random cuts (quick: two of these seven per size); "
+            "64, 65, 100, 128, 129, 255, 256, 257, 500, 1000 field lines (thorough: 26 counts up to 2048) with names from a small pool "
+            "(many same-named, interleaved), all the same name, or all distinct (quick: 500 and 1000 under one read plan); 5..1000 cookies in the Cookie field (thorough 1..4096); "
+            "X-Forwarded-For chains of 1..5, 15..18, 31..34, 64, 65, 100, 128, 256, 257, 1000 entries (thorough 1..4096) of DISTINCT IPv4 "
+            "and IPv6 addresses (so origin, order and number of proxies are all visible), with and without unparsable entries in between; "
             "plus hand-written corner cases. Per case the implementation's parse, its re-serialisation and the "
             "re-parse are compared with the Lean model and with the denotation. Non-trivial = at least two header "
             "fields; distinct = distinct case line.",
